@@ -7,8 +7,10 @@ package forksmon
 import (
 	"fmt"
 	"github.com/piotrnar/gocoin/lib/btc"
+	"github.com/piotrnar/gocoin/lib/chain"
 	"os"
 	"strings"
+	"sync"
 	"time"
 
 	"github.com/piotrnar/gocoin/lib/utxo"
@@ -43,6 +45,18 @@ var WorkConfig = Config{Name: "testnet-work", Testnet: true, Work: true, FastSav
 func Configs() []Config {
 	return []Config{{Name: "plain"}, {Name: "compressed-fastsave", Compress: true, FastSave: true, Purge: true}, {Name: "testnet-fastsave", Testnet: true, FastSave: true},
 		{Name: "plain-headerfirst", HeaderFirst: true}}
+}
+
+// transactions chain.TrustedTxChecker vouches for (installed in ChildFor)
+var (
+	vouchMu sync.Mutex
+	vouched = map[refchain.Hash]bool{}
+)
+
+func vouch(id refchain.Hash) {
+	vouchMu.Lock()
+	vouched[id] = true
+	vouchMu.Unlock()
 }
 
 // WorkMode: tree blocks randomly get a >20-minute gap (testnet minimum-difficulty block) or a normal gap.
@@ -91,6 +105,13 @@ func ChildFor(prop string, seed int64, tier, cfgName, stateFile string, trees in
 	s := chainsim.NewSim(run, r, p, dir, chainsim.NodeOpts{CompressUTXO: cfg.Compress, HeaderFirst: cfg.HeaderFirst})
 	defer s.Close()
 	g := s.G
+	chain.TrustedTxChecker = func(tx *btc.Tx) bool {
+		var h refchain.Hash
+		copy(h[:], tx.Hash.Hash[:])
+		vouchMu.Lock()
+		defer vouchMu.Unlock()
+		return vouched[h]
+	}
 	if cfg.Work {
 		// one full difficulty period of fast coinbase-only blocks: the retarget divides the target by 4;
 		// afterwards a block more than 20 minutes after its parent is a minimum-difficulty block
@@ -621,6 +642,13 @@ func buildKind(g *chainsim.Gen, r *vlib.Rand, par *refchain.Node, kind string) *
 	switch kind {
 	case "connect-invalid/script":
 		t1 := g.Spend([]refchain.OutPoint{a}, []refchain.Coin{ca}, []refchain.TxOut{g.OutTrue(ca.Value - 10)}, 1, 0, nil, 0)
+		if a != b && r.Bool() {
+			// in front of it a valid transaction that chain.TrustedTxChecker vouches for (the client's pool has verified it):
+			// no verifier for that one - the failing one behind it still has to be found
+			t0 := g.Spend([]refchain.OutPoint{b}, []refchain.Coin{cb}, []refchain.TxOut{g.OutTrue(cb.Value - 10)}, 1, 0, nil, -1)
+			vouch(t0.TxID())
+			return g.Build(chainsim.BlockSpec{Parent: par, Txs: []*refchain.Tx{t0, t1}, Fees: 20})
+		}
 		return g.Build(chainsim.BlockSpec{Parent: par, Txs: []*refchain.Tx{t1}, Fees: 10})
 	case "connect-invalid/double-spend":
 		t1 := g.Spend([]refchain.OutPoint{a}, []refchain.Coin{ca}, []refchain.TxOut{g.OutTrue(ca.Value - 10)}, 1, 0, nil, -1)
